@@ -4,6 +4,7 @@ helper lemmas are in HsLemmas.lean (handshake automaton) and PipeLemmas.lean (pi
 -/
 import BV.C18.HsLemmas
 import BV.C18.PipeLemmas
+import BV.C18.Explain
 import BV.Generated.C18
 namespace BV.C18
 open Spec
@@ -228,10 +229,10 @@ cleanup loop has finished. The message stays in the buffer; this is outside "que
 disconnect request". -/
 theorem late_send_can_be_lost :
     ∃ sched : List Choice,
-      final (exec ⟨50, false, fun _ => none⟩ (Pipe.init [0]) sched) = true ∧
-      (exec ⟨50, false, fun _ => none⟩ (Pipe.init [0]) sched).done.count 0 = 0 ∧
-      (exec ⟨50, false, fun _ => none⟩ (Pipe.init [0]) sched).outQ = [0] :=
-  ⟨[.check 0, .disconnect, .qQuit, .qStep, .qStep, .oQuit, .oStep, .oStep, .iExit, .sInQuit,
+      final (exec ⟨50, false, false, fun _ => none⟩ (Pipe.init [0]) sched) = true ∧
+      (exec ⟨50, false, false, fun _ => none⟩ (Pipe.init [0]) sched).done.count 0 = 0 ∧
+      (exec ⟨50, false, false, fun _ => none⟩ (Pipe.init [0]) sched).outQ = [0] :=
+  ⟨[.start, .check 0, .disconnect, .qQuit, .qStep, .qStep, .oQuit, .oStep, .oStep, .iExit, .sInQuit,
     .sOutQuit, .send 0], by decide⟩
 
 open Pipe in
@@ -247,7 +248,8 @@ reachable state in which a handler goroutine (queue, out, in, stall) is still al
 actions is enabled — so when nothing is enabled any more all of them have returned. In
 particular `outHandler` never blocks for good on `stallControl`, `sendDoneQueue` or
 `queueQuit`, and `queueHandler` never on `sendQueue`. -/
-theorem all_terminate (c : Pipe.Cfg) (hfix : c.stallBug = false) (ids : List Nat)
+theorem all_terminate (c : Pipe.Cfg) (hfix : c.stallBug = false) (hdb : c.drainBug = false)
+    (ids : List Nat)
     (sched : List Choice)
     (hd : (exec c (Pipe.init ids) sched).disc = true)
     (hq : ∀ ch, stepOpt c (exec c (Pipe.init ids) sched) ch = none) :
@@ -255,21 +257,23 @@ theorem all_terminate (c : Pipe.Cfg) (hfix : c.stallBug = false) (ids : List Nat
   cases hf : final (exec c (Pipe.init ids) sched) with
   | true => rfl
   | false =>
-    obtain ⟨ch, _, hen⟩ := progress c _ (fifo_exec c sched _ (ctl_init ids) (fifo_init ids)).1
+    obtain ⟨ch, _, hen⟩ := progress c hdb _ (fifo_exec c sched _ (ctl_init ids) (fifo_init ids)).1
       (stall_exec c hfix sched _ (stall_init ids)) hd hf
     simp [hq ch] at hen
 
+set_option maxRecDepth 8000 in
 open Pipe in
 /-- The hypotheses of `all_terminate` are satisfiable: a complete run. -/
 example : ∃ sched : List Choice,
-    (exec ⟨50, false, fun _ => none⟩ (Pipe.init [0, 1]) sched).disc = true ∧
-    final (exec ⟨50, false, fun _ => none⟩ (Pipe.init [0, 1]) sched) = true ∧
-    (exec ⟨50, false, fun _ => none⟩ (Pipe.init [0, 1]) sched).written = [0] ∧
-    (exec ⟨50, false, fun _ => none⟩ (Pipe.init [0, 1]) sched).done = [0, 1] :=
-  ⟨[.check 0, .send 0, .check 1, .send 1, .qRecvOut, .oRecv, .oStep, .sRecv, .oStep, .oStep, .oStep,
-    .qRecvOut, .disconnect, .qQuit, .qStep, .qStep, .qStep, .oQuit, .oStep, .oStep, .iExit,
+    (exec ⟨50, false, false, fun _ => none⟩ (Pipe.init [0, 1]) sched).disc = true ∧
+    final (exec ⟨50, false, false, fun _ => none⟩ (Pipe.init [0, 1]) sched) = true ∧
+    (exec ⟨50, false, false, fun _ => none⟩ (Pipe.init [0, 1]) sched).written = [0] ∧
+    (exec ⟨50, false, false, fun _ => none⟩ (Pipe.init [0, 1]) sched).done = [0, 1] :=
+  ⟨[.start, .check 0, .send 0, .check 1, .send 1, .qRecvOut, .oRecv, .oStep, .sRecv, .oStep, .oStep,
+    .oStep, .qRecvOut, .disconnect, .qQuit, .qStep, .qStep, .qStep, .oQuit, .oStep, .oStep, .iExit,
     .sInQuit, .sOutQuit], by decide⟩
 
+set_option maxRecDepth 8000 in
 open Pipe in
 /-- F-C18-a, the stall handler as it was before the repair (`stallBug = true`): there is a
 schedule after which `outHandler` is blocked for good on its second `stallControl` send made
@@ -279,14 +283,42 @@ request — never gets its completion signal. `all_terminate` and `done_exactly_
 `final` hypothesis can then never be met) exclude this for the repaired handler. -/
 theorem stall_bug_deadlocks :
     ∃ sched : List Choice,
-      let s := exec ⟨50, true, fun _ => none⟩ (Pipe.init [0, 1]) sched
+      let s := exec ⟨50, false, true, fun _ => none⟩ (Pipe.init [0, 1]) sched
       s.disc = true ∧ final s = false ∧ s.oh = .holding 1 ∧ s.todo = [] ∧ s.checked = [] ∧
       1 ∈ s.sentBefore ∧ s.done.count 1 = 0 ∧
       (∀ ch ∈ [Choice.disconnect, .qRecvOut, .qRecvDone, .qQuit, .qStep, .oRecv, .oQuit, .oStep,
-        .iExit, .sRecv, .sInQuit, .sOutQuit], stepOpt ⟨50, true, fun _ => none⟩ s ch = none) :=
-  ⟨[.check 0, .send 0, .check 1, .send 1, .qRecvOut, .qRecvOut, .disconnect, .iExit, .sInQuit,
-    .sInQuit, .oRecv, .oStep, .oStep, .oStep, .oStep, .qRecvDone, .oRecv, .qQuit, .qStep, .qStep],
+        .iExit, .sRecv, .sInQuit, .sOutQuit, .start, .abandon, .aStep],
+        stepOpt ⟨50, false, true, fun _ => none⟩ s ch = none) :=
+  ⟨[.start, .check 0, .send 0, .check 1, .send 1, .qRecvOut, .qRecvOut, .disconnect, .iExit,
+    .sInQuit, .sInQuit, .oRecv, .oStep, .oStep, .oStep, .oStep, .qRecvDone, .oRecv, .qQuit, .qStep, .qStep],
     by decide⟩
+
+open Pipe in
+/-- F-C18-b, before the repair (`drainBug = true`): messages queued while the handshake is in
+progress are never signalled when the peer is disconnected before its handlers start — the
+system is stuck (nothing enabled), not final, and message 0, queued before the disconnect
+request, has no completion signal. With the repair (`drainBug = false`) `all_terminate` and
+`done_exactly_once` cover this path: `final` includes the drained state. -/
+theorem unstarted_without_drain_loses :
+    ∃ sched : List Choice,
+      let s := exec ⟨50, true, false, fun _ => none⟩ (Pipe.init [0]) sched
+      s.disc = true ∧ final s = false ∧ s.todo = [] ∧ s.checked = [] ∧ 0 ∈ s.sentBefore ∧
+      s.done.count 0 = 0 ∧
+      (∀ ch ∈ [Choice.disconnect, .qRecvOut, .qRecvDone, .qQuit, .qStep, .oRecv, .oQuit, .oStep,
+        .iExit, .sRecv, .sInQuit, .sOutQuit, .start, .abandon, .aStep],
+        stepOpt ⟨50, true, false, fun _ => none⟩ s ch = none) :=
+  ⟨[.check 0, .send 0, .disconnect, .abandon], by decide⟩
+
+open Pipe in
+/-- The repaired path: queued during the handshake, negotiation fails, everything is signalled
+once. -/
+example :
+    final (exec ⟨50, false, false, fun _ => none⟩ (Pipe.init [0, 1, 2])
+      [.check 0, .send 0, .check 1, .send 1, .check 2, .send 2, .disconnect, .abandon,
+       .aStep, .aStep, .aStep, .aStep]) = true ∧
+    (exec ⟨50, false, false, fun _ => none⟩ (Pipe.init [0, 1, 2])
+      [.check 0, .send 0, .check 1, .send 1, .check 2, .send 2, .disconnect, .abandon,
+       .aStep, .aStep, .aStep, .aStep]).done = [0, 1, 2] := by decide
 
 /-! ## Constants regenerated from the tree -/
 
